@@ -483,6 +483,23 @@ class _Expr(SymEval):
                 dv = self._external_default(r[1], n)
                 if dv is not self._MISSING:
                     return dv
+        if isinstance(f, ast.Attribute) and isinstance(f.value, ast.Name) and f.value.id in self.np_names and f.value.id not in self.env and f.attr == "frompyfunc" and len(n.args) == 3 and not n.keywords:
+            # a model callable made element-wise: called on arrays it is applied to every element of the broadcast
+            # arguments; the result is an array of objects, as numpy's
+            fv, nin, nout = self.eval(n.args[0]), self.eval(n.args[1]), self.eval(n.args[2])
+            if nout != 1 or not isinstance(nin, (int, np.integer)):
+                raise NotSymbolic("frompyfunc with several outputs")
+
+            def elementwise(args, kw, fv=fv, nin=int(nin)):
+                if kw or len(args) != nin:
+                    raise Raised("TypeError")
+                arrs = np.broadcast_arrays(*[np.asarray(a, dtype=object) if not isinstance(a, np.ndarray) else a for a in args])
+                out = np.empty(arrs[0].shape, dtype=object)
+                for idx in np.ndindex(*arrs[0].shape):
+                    out[idx] = self._call_value(fv, [a_[idx] for a_ in arrs])
+                return out if out.shape else out[()]
+
+            return ("<function>", elementwise)
         if isinstance(f, ast.Attribute) and isinstance(root, ast.Name) and root.id in self.np_names and ast.unparse(f).split(".", 1)[-1] in ("polynomial.hermite.hermgauss", "polynomial.hermite_e.hermegauss", "polynomial.legendre.leggauss"):
             deg = self.eval(n.args[0]) if n.args else None
             if not isinstance(deg, (int, np.integer)):
@@ -556,7 +573,7 @@ class _Expr(SymEval):
                 return [x.item() for x in np.nditer(args[0])]
             if f.attr == "full" and len(args) >= 2 and isinstance(args[1], (int, float)) and not isinstance(args[1], bool):
                 return np.full(args[0], float(args[1]) if kw.get("dtype") in (None, float) else args[1])
-            PURE_NUMERIC = ("tril_indices", "triu_indices", "argsort", "sort", "unique", "arange", "cumsum", "where", "sum", "max", "min", "amax", "amin", "abs", "absolute", "sqrt", "prod", "any", "all", "nonzero", "argmax", "argmin", "diff", "lexsort", "searchsorted", "count_nonzero", "sign", "floor", "ceil", "ravel_multi_index", "unravel_index")
+            PURE_NUMERIC = ("tril_indices", "triu_indices", "argsort", "sort", "unique", "arange", "cumsum", "where", "sum", "max", "min", "amax", "amin", "abs", "absolute", "sqrt", "prod", "any", "all", "nonzero", "argmax", "argmin", "diff", "lexsort", "searchsorted", "count_nonzero", "sign", "floor", "ceil", "ravel_multi_index", "unravel_index", "exp", "log")
             if f.attr in PURE_NUMERIC and args and all(not isinstance(a, (Sym, Rec)) and not (isinstance(a, np.ndarray) and a.dtype == object) and not (isinstance(a, (list, tuple)) and any(isinstance(x, (Sym, Rec)) for x in a)) for a in args):
                 return _prog_call(getattr(np, f.attr), *args, **kw)
             if f.attr in ("repeat", "tile") and args:
@@ -602,6 +619,11 @@ class _Expr(SymEval):
                     return getattr(base, f.attr)()
                 if f.attr == "astype":
                     if base.dtype == object:
+                        # an array of objects that are all plain numbers (what np.frompyfunc returns) converts
+                        vals_ = [Sym.const(x) if isinstance(x, Sym) else x for x in base.ravel()]
+                        if all(not isinstance(x, Sym) or all(m == () for m in x.terms) for x in vals_) and not any(isinstance(x, Rec) for x in vals_):
+                            tgt = args[0] if not isinstance(args[0], str) else {"int": int, "float": float}[args[0]]
+                            return np.array([float(x.terms.get((), 0)) if isinstance(x, Sym) else x for x in vals_], dtype=object).astype(tgt).reshape(base.shape)
                         raise NotSymbolic("astype of symbolic values")
                     return base.astype(args[0] if not isinstance(args[0], str) else {"int": int, "float": float}[args[0]])
                 if f.attr == "copy":
@@ -746,6 +768,11 @@ class _Expr(SymEval):
                 cstub = getattr(self.owner, "stubs", {}).get(ci.qualname)
                 if cstub is not None:
                     return cstub(args, kw)
+                if not names and "__init__" in ci.methods and not any(isinstance(b_, ast.Name) and b_.id.endswith(("Error", "Exception", "Warning")) for b_ in ci.node.bases) and not ci.node.bases:
+                    # a plain class of the package with its own constructor (no base class): the constructor is run
+                    inst = Rec(ci)
+                    self.owner.call_method(inst, "__init__", args, kw)
+                    return inst
                 if not names:
                     return Rec(ci, args=tuple(args), **kw)  # exception / warning classes and other plain classes
                 if len(args) > len(names) or any(k not in names for k in kw):
@@ -1000,6 +1027,11 @@ class AccessorEval:
             if isinstance(v, tuple) and len(v) == 2 and v[0] == "<unevaluated>":
                 raise NotSymbolic(f"class attribute {ci.name}.{name} = {v[1]} is outside the whitelist")
             return v
+        if name in ci.methods and not ci.methods[name].node.decorator_list:
+            # a bound method handed on as a value (np.frompyfunc(obj.method, ...), key=obj.method)
+            fn_ = lambda args, kw, rec=rec, name=name: self.call_method(rec, name, list(args), dict(kw))  # noqa: E731
+            fn_.func = ci.methods[name]
+            return ("<function>", fn_)
         raise NotSymbolic(f"{ci.name} has no field or property {name}")
 
     def set(self, rec: Rec, name, value):
@@ -1339,6 +1371,13 @@ class AccessorEval:
                 v = val
                 if isinstance(v, (list, tuple)):
                     v = np.array(v, dtype=base.dtype)
+                if base.dtype != object and (isinstance(v, Sym) or (isinstance(v, np.ndarray) and v.dtype == object)):
+                    # constant symbolic values (numbers that went through symbolic arithmetic) stored in a numeric array
+                    va = np.asarray(v, dtype=object)
+                    flat = [Sym.const(x) for x in va.ravel()]
+                    if any(m != () for x in flat for m in x.terms):
+                        raise NotSymbolic("symbolic value stored in a numeric array")
+                    v = np.array([float(x.terms.get((), 0)) for x in flat]).reshape(va.shape)
                 base[idx] = v
                 return
             if isinstance(base, dict):
